@@ -27,6 +27,19 @@ CHECKS = {
  "C09": ("exploration", "oracle by construction: harness-issued stateful tokens and JWTs with exactly one known perturbation each",
    "Tokens whose validity is known by construction (scope over path alphabets, time offsets >= 120 s, HS256/384/512, ES256, RS256, kid/no kid, alg none / confusion, audience host and path variants) through token.Parse().Check and Description.GetPermission. Held on the executions observed.",
    "Time offsets never closer than 120 s to a boundary; harness signs with its own crypto code.", "5/C09"),
+
+ "C06": ("exploration", "receive-loop mirror over the real packetcache with generator-derived ground truth (cache tier)",
+   "The harness plays the receive loop (Store, trigger rule, BitmapGet, Expect) against the real cache on generated arrival histories (loss, duplicates, reordering <= 256, wrap, restarts) and checks every NACK against its own record of what arrived (never names a received packet, never at/beyond the newest, at most once, steady losses are named), statistics self-consistency at every sample/reset point, and ToBitmap exactness. Held on the executions observed.",
+   "The liveness clause is asserted only for steady histories whose generator guarantees the preconditions; the receive-loop tier over real RTP (trace points) is part of the WebRTC end-to-end harness.", "5/C06"),
+ "C10": ("exploration", "linearizability checking (porcupine) of recorded AddClient/DelClient/SetLocked/read histories against a sequential admission model, with lock-site schedule perturbation, under -race",
+   "Short concurrent histories on one group per history, all configurations of max-clients x autolock x autokick x time window, recorded at the call boundary and checked against the admission model; direct invariants (non-operators never exceed max-clients; a refused client is announced to nobody). Held on the schedules observed.",
+   "Schedules are sampled, not enumerated (perturbation 0-90 % at every instrumented lock operation); lock changes are issued only by threads holding a joined operator, as the protocol requires.", "5/C10"),
+ "C13": ("exploration", "Go race detector + instrumented-mutex wait-for/lock-order monitor + exactly-once/FIFO/lost-wakeup checker over unbounded.Channel",
+   "Child processes run fake-client storms on the group API, real websocket clients with statistics pollers, WHIP and recording clients joining/closing/kicked, shutdown with every member kind, and producers vs galene's queue consumption pattern, under -race and with perturbation at every lock operation; race reports in the property's anchor files and actual wait-for cycles are violations. Held on the schedules observed.",
+   "Deadlocks on channels/I-O are outside the wait-for graph (watchdog => inconclusive); 'eventually seen' restated as queue empty at quiescence.", "5/C13"),
+ "C14": ("exploration", "event-fold monitor: each client's user list folded from add/change/delete vs Group.GetClients at logical quiescence",
+   "Real server in a child process, 4-12 websocket clients over 3 groups, 3 concurrent drivers issuing random membership/moderation/setdata actions; at check points (ping/pong barrier quiescence) every client's folded view must equal the true membership (ids, usernames, permissions, data); duplicate adds, deletes of absent ids, cross-group events and phantom members are violations. Held on the executions observed.",
+   "Convergence is bounded progress: quiescence watchdog 30 s => inconclusive.", "5/C14"),
 }
 
 NOT_YET = "check not built yet in this session (work in progress, see DESIGN.md section 9)"
